@@ -25,6 +25,20 @@ Proof.
     + unfold dmax. lia.
 Qed.
 
+(* every board size, at most 64 pieces in the game (the standard sets of 3x3 .. 6x6) *)
+Theorem analyze_exact_64 : forall cfg, precise cfg -> builtin_eval cfg ->
+  forall k s p sk pv v d acc c,
+  SI s -> base_ok p -> (total p <= 64)%N -> move p + 16 <= max_terminal_ply ->
+  analyze_cancel gen_basis cfg k s p = (sk, (pv, v, d, acc, c)) ->
+  SI sk /\ (0 < d -> exact_result gen_basis cfg p pv v d).
+Proof.
+  intros cfg HP [HE|HE] k s p sk pv v d acc c HS Hb Ht Hm H.
+  - apply (analyze_exact_winner cfg HP HE k s p sk pv v d acc c HS Hb); [|exact H]. apply within_total64; [apply Hb|exact Ht].
+  - apply (analyze_exact_default cfg HP HE k s p sk pv v d acc c HS Hb); [| |exact H].
+    + apply within_total64; [apply Hb|exact Ht].
+    + unfold dmax. lia.
+Qed.
+
 (* ---- positions of real games ---- *)
 Lemma base_ok_replay : forall ms p q, base_ok p -> (total p <= 64)%N -> replay p ms = Ok q ->
   base_ok q /\ move q = move p + Z.of_nat (length ms) /\ size q = size p /\ total q = total p.
@@ -59,6 +73,21 @@ Proof.
   destruct (new_ok sz bwt stones caps ltac:(lia) ltac:(lia) ltac:(lia)) as (_ & _ & T0).
   destruct (base_ok_replay ms _ p B0 ltac:(rewrite T0; lia) HR) as (Hb & Em & Es & Et).
   apply (analyze_exact_small cfg HP HE k s p sk pv v d acc c HS Hb); [rewrite Es; cbn [new_pos size]; lia|rewrite Et, T0; lia| |exact H].
+  rewrite Em. cbn [new_pos move]. lia.
+Qed.
+
+Theorem analyze_exact_game64 : forall cfg, precise cfg -> builtin_eval cfg ->
+  forall sz bwt stones caps ms p, (3 <= sz <= 8)%N -> (0 < stones)%N -> (2 * (stones + caps) <= 64)%N ->
+  replay (new_pos sz bwt stones caps) ms = Ok p -> Z.of_nat (length ms) + 16 <= max_terminal_ply ->
+  forall k s sk pv v d acc c, SI s ->
+  analyze_cancel gen_basis cfg k s p = (sk, (pv, v, d, acc, c)) ->
+  SI sk /\ (0 < d -> exact_result gen_basis cfg p pv v d).
+Proof.
+  intros cfg HP HE sz bwt stones caps ms p Hsz Hst Hsum HR Hlen k s sk pv v d acc c HS H.
+  pose proof (base_ok_new sz bwt stones caps ltac:(lia) ltac:(lia) ltac:(lia) ltac:(lia)) as B0.
+  destruct (new_ok sz bwt stones caps ltac:(lia) ltac:(lia) ltac:(lia)) as (_ & _ & T0).
+  destruct (base_ok_replay ms _ p B0 ltac:(rewrite T0; lia) HR) as (Hb & Em & Es & Et).
+  apply (analyze_exact_64 cfg HP HE k s p sk pv v d acc c HS Hb); [rewrite Et, T0; lia| |exact H].
   rewrite Em. cbn [new_pos move]. lia.
 Qed.
 
